@@ -137,7 +137,6 @@ def _connect_randomly(
         if connects[dest] >= max_connects:
             dest_set.remove(dest)
             max_i -= 1
-            assert max_i >= 0
 
     return connected
 
